@@ -26,6 +26,8 @@ Ev == TraceLog[l]
 Arrange(want, protos) ==
   IF /\ Len(want) = Len(protos)
      /\ \A i \in 1..Len(want) : \E j \in 1..Len(protos) : protos[j].name = want[i].name
+     /\ \A i, k \in 1..Len(want) : want[i].name = want[k].name => i = k      \* a permutation, not just a cover
+     /\ \A i, k \in 1..Len(protos) : protos[i].name = protos[k].name => i = k
   THEN [i \in 1..Len(want) |->
           LET j == CHOOSE j \in 1..Len(protos) : protos[j].name = want[i].name
           IN [protos[j] EXCEPT !.hb = want[i].hb, !.db = want[i].db]]
